@@ -158,12 +158,12 @@ def rewrite_for(text, notes, where):
             for t in ct[body_close+1:]:
                 if t.kind == "ident" and t.text == idx:
                     raise Undecided(f"{where}: loop index `{idx}` is used after the loop: rewrite R1 refused")
-            new = (f"let mut {itn} = {base_expr}; let mut {idx}: usize = 0; loop {{ "
+            new = (f"/*@R1*/let mut {itn} = {base_expr}; let mut {idx}: usize = 0; loop {{ "
                    f"let {inner_pat} = match {itn}.next() {{ Some(v__) => v__, None => break }};"
                    f"{body_text} {idx} += 1; }}")
             notes.append({"rule": "R1", "where": where, "form": "enumerate", "iter": itn, "index": idx, "expr": en})
         else:
-            new = (f"let mut {itn} = {expr_text}; loop {{ "
+            new = (f"/*@R1*/let mut {itn} = {expr_text}; loop {{ "
                    f"let {pat_text} = match {itn}.next() {{ Some(v__) => v__, None => break }};"
                    f"{body_text} }}")
             notes.append({"rule": "R1", "where": where, "form": "plain", "iter": itn, "expr": en})
@@ -207,6 +207,7 @@ def loops_of(ct):
 
 def annotate_fn(text, fn_dirs, where, notes):
     """text: full source of one fn item (signature + body or `;`)."""
+    _for_counter[0] = 0
     text = rewrite_format(text, notes, where)
     text = rewrite_for(text, notes, where)
     for d in fn_dirs:
@@ -260,7 +261,7 @@ def annotate_fn(text, fn_dirs, where, notes):
             ed.insert(ct[sig_end].end, "\n" + payload)
         elif nm == "body-end":
             ed.insert(ct[body_close].start, "\n" + payload)
-        elif nm in ("loop", "loop-start", "loop-end", "after-loop"):
+        elif nm in ("loop", "loop-start", "loop-end", "after-loop", "before-loop", "loop-head"):
             k = int(arg)
             if k < 1 or k > len(loops):
                 raise Undecided(f"{where}: loop {k} not found ({len(loops)} loops) -- lost anchor")
@@ -268,6 +269,19 @@ def annotate_fn(text, fn_dirs, where, notes):
             bc = match_close(ct, bo)
             if nm == "loop":
                 ed.insert(ct[bo].start, "\n" + payload)
+            elif nm == "loop-head":
+                ed.insert(ct[bo].end, "\n" + payload)
+            elif nm == "before-loop":
+                # before the R1-introduced `let mut it__N = X;` (and index declaration) if this loop came from R1
+                pos = ct[kw].start
+                mk = text.rfind("/*@R1*/", 0, pos)
+                if mk >= 0:
+                    between = code_toks(tokenize(text[mk:pos]))
+                    if not any(t.kind == "ident" and t.text in ("loop", "while", "for") for t in between) and \
+                       all(t.text != "{" for t in between):
+                        pos = mk
+                ed.insert(pos, payload)
+
             elif nm == "loop-start":
                 # after the R1 binding statement if the body starts with `let P = match it__N.next()`
                 pos = ct[bo].end
@@ -287,12 +301,20 @@ def annotate_fn(text, fn_dirs, where, notes):
                 ed.insert(pos, "\n" + payload)
             else:
                 ed.insert(ct[bc].end, "\n" + payload)
-        elif nm == "at":
+        elif nm == "attr":
+            ed.insert(ct[first].start, payload.strip() + "\n")
+        elif nm in ("at", "at?"):
             mode, _, anchor = arg.partition(" ")
             anchor = anchor.strip()
             if anchor.startswith('"') and anchor.endswith('"'):
                 anchor = anchor[1:-1]
-            idx = find_anchor(text, ct, anchor, where)
+            try:
+                idx = find_anchor(text, ct, anchor, where)
+            except Undecided as e:
+                if nm == "at?":
+                    notes.append({"rule": "lost-optional-anchor", "where": where, "anchor": anchor})
+                    continue
+                raise
             if mode == "before":
                 ed.insert(ct[idx].start, payload)
             elif mode == "after":
